@@ -1475,19 +1475,19 @@ package rockredis
 //@   opt autoloops
 //@   callassert NewDBRangeIterator sameSlice(arg1, keyInfo.RangeStart) && sameSlice(arg2, keyInfo.RangeEnd) && arg3 == common.RangeROpen && !arg4
 //@   ensures result2 == nil && !getExpired && (ghost(collexpired, db) == 1 || ghost(collabsent, db) == 1) ==> result0 == 0 && len(result1) == 0
-//@   modifies *
+//@   modifies ghost(collexpired, db), ghost(collabsent, db), ghost(curexists, db), ghost(curhead, db), ghost(curlen, db), ghost(curtk, db)
 //@ func (db *RockDB) HKeys(key []byte) (int64, []common.KVRecordRet, error)
 //@   opt only=ASSERT,POST
 //@   opt autoloops
 //@   callassert NewDBRangeIterator sameSlice(arg1, keyInfo.RangeStart) && sameSlice(arg2, keyInfo.RangeEnd) && arg3 == common.RangeROpen && !arg4
 //@   ensures result2 == nil && (ghost(collexpired, db) == 1 || ghost(collabsent, db) == 1) ==> result0 == 0 && len(result1) == 0
-//@   modifies *
+//@   modifies ghost(collexpired, db), ghost(collabsent, db), ghost(curexists, db), ghost(curhead, db), ghost(curlen, db), ghost(curtk, db)
 //@ func (db *RockDB) HValues(key []byte) (int64, []common.KVRecordRet, error)
 //@   opt only=ASSERT,POST
 //@   opt autoloops
 //@   callassert NewDBRangeIterator sameSlice(arg1, keyInfo.RangeStart) && sameSlice(arg2, keyInfo.RangeEnd) && arg3 == common.RangeROpen && !arg4
 //@   ensures result2 == nil && (ghost(collexpired, db) == 1 || ghost(collabsent, db) == 1) ==> result0 == 0 && len(result1) == 0
-//@   modifies *
+//@   modifies ghost(collexpired, db), ghost(collabsent, db), ghost(curexists, db), ghost(curhead, db), ghost(curlen, db), ghost(curtk, db)
 
 // ---- LRANGE (C08, C09): Redis index normalisation (negative = from the end, clamped to the list), then exactly the
 // positions head+start .. head+stop are read: closed range between the two element keys, no offset, limit =
@@ -1501,7 +1501,7 @@ package rockredis
 //@   callassert NewDBRangeLimitIterator headSeq == ghost(curhead, db) + max(0, ite(old(start) < 0, ghost(curlen, db) + old(start), old(start))) && tailSeq == ghost(curhead, db) + ghost(curlen, db) - 1 && arg3 == common.RangeClose && arg4 == 0 && !arg6
 //@   callassert lEncodeListKey sameSlice(arg0, table) && sameSlice(arg1, rk) && (arg2 == headSeq || arg2 == tailSeq)
 //@   ensures result1 == nil && ghost(curexists, db) == 0 ==> len(result0) == 0
-//@   modifies *
+//@   modifies ghost(collexpired, db), ghost(collabsent, db), ghost(curexists, db), ghost(curhead, db), ghost(curlen, db), ghost(curtk, db)
 
 // ---- sorted-set range reads (C08, C09): the score index is read over exactly [minKey, maxKey] (closed), with the
 // caller's offset and count; backwards when reverse - except the whole-range case (offset 0, no count), which reads
@@ -1514,8 +1514,8 @@ package rockredis
 //@   callassert NewDBRangeLimitIterator sameSlice(arg1, minKey) && sameSlice(arg2, maxKey) && arg3 == common.RangeClose && arg4 == offset && arg5 == count && (arg6 <==> (reverse && !(offset == 0 && count < 0))) && offset >= 0 && count <= MAX_BATCH_NUM
 //@   ensures offset < 0 && result1 == nil ==> len(result0) == 0
 //@   ensures count > MAX_BATCH_NUM && offset >= 0 ==> result1 != nil
-//@   modifies *
+//@   modifies ghost(collexpired, db), ghost(collabsent, db), ghost(curexists, db), ghost(curhead, db), ghost(curlen, db), ghost(curtk, db)
 //@ func (db *RockDB) ZScore(key []byte, member []byte) (float64, error)
 //@   opt only=POST
 //@   ensures ghost(collexpired, db) == 1 || ghost(collabsent, db) == 1 ==> result1 != nil
-//@   modifies *
+//@   modifies ghost(collexpired, db), ghost(collabsent, db), ghost(curexists, db), ghost(curhead, db), ghost(curlen, db), ghost(curtk, db)
